@@ -284,6 +284,27 @@ func genC20(g *gen) {
 				g.emit(steps...)
 			}
 		}
+		// products that are not representable (value set 4): the fused kernels of the specialised engines must round like
+		// the default engine's multiply-then-add, bit for bit, on contiguous and on iterator paths
+		for _, sh := range [][]int{{14}, {2, 7}, {28}} {
+			for _, edt := range []string{"f64", "f32"} {
+				if (eng == "f64" && edt != "f64") || (eng == "f32" && edt != "f32") {
+					continue
+				}
+				mkc := func(lay string) string {
+					if lay == "T" && len(sh) == 2 {
+						return fmt.Sprintf("enew %s %s C %s", edt, ints([]int{sh[1], sh[0]}), eng)
+					}
+					return fmt.Sprintf("enew %s %s C %s", edt, ints(sh), eng)
+				}
+				g.emit("vset=4", mkc(""), mkc(""), mkc(""), "fma $0 $1 $2", "dump $3", "dump $2")
+				g.emit("vset=4", mkc(""), mkc(""), "fma $0 #k3 $1", "dump $2", "dump $1")
+				g.emit("vset=4", mkc(""), mkc(""), mkc(""), "eadd fn $0 $1", "dump $3", "eadd fn $0 $1 incr=$2", "dump $2")
+				if len(sh) == 2 {
+					g.emit("vset=4", mkc("T"), "T $0 1,0", mkc(""), mkc(""), "fma $0 $1 $2", "dump $3", "dump $2")
+				}
+			}
+		}
 		// long contiguous operands (block / unrolled paths of the vector kernels start at some length): every mode of
 		// Add and both forms of FMA on 64-, 100- and 8x16-element tensors; operands are dumped afterwards
 		for _, sh := range [][]int{{64}, {100}, {8, 16}} {
